@@ -1,5 +1,6 @@
 import CddVerif.Driver.Basic
 import CddVerif.Model.Doc
+import CddVerif.Proofs.DocRoundTripDomain
 /-! Driver ops for C01 (line protocol; see Main.lean). Only Mathlib-free imports here. -/
 namespace Driver.C01
 open Lean Driver Doc
@@ -72,6 +73,13 @@ def ops : List (String × Handler) := [
     match extractDefault line typ edd with
     | .ok (d, v) => return Json.mkObj [("doc", str d), ("default", match v with | some x => defaultJ x | none => Json.null)]
     | .outside w => return Json.mkObj [("outside", Json.str w)]),
+  -- the whole-docstring theorems' domain test and predicted interface (Properties/C01Whole.lean): `rest_roundtrip_full`
+  -- says parseRest (emit ir) = expIR ir on InDomain; the harness compares expIR with what the REAL parser returns
+  ("c01.whole", fun j => do
+    let ir ← irOf (← j.getObjVal? "ir")
+    let et := (getBool j "emit_types").toOption.getD true
+    let edd := (getBool j "edd").toOption.getD true
+    return Json.mkObj [("indomain", Json.bool (C01Whole.inDomainB ir)), ("exp", irJ (DocRT.expIR ir et edd))]),
   ("c01.needs_quoting", fun j => do
     return Json.mkObj [("r", Json.bool (needsQuoting (optChars j "typ")))])
 ]
